@@ -179,6 +179,71 @@ func JumpPrograms(thorough bool, yield func(string)) {
 	}
 }
 
+var ins4 = [][]ugo.Object{{ugo.Int(0)}, {ugo.Int(1)}, {ugo.Int(2)}, {ugo.String("x")}}
+
+// large runs one generated large program given as final source text; programs whose version-1 form does not fit, or
+// that do not grow beyond 64 KiB, are counted and skipped.
+func large(c *fw.Ctx, key, src string, inputs [][]ugo.Object) {
+	if c.Skip(key) {
+		return
+	}
+	bc, err, pan := run.Compile(src, run.Options{})
+	if pan != "" || err != nil {
+		c.Count("not_compilable", 1)
+		return
+	}
+	big := len(bc.Main.Instructions) > 65536
+	for _, k := range bc.Constants {
+		if f, ok := k.(*ugo.CompiledFunction); ok && len(f.Instructions) > 65536 {
+			big = true
+		}
+	}
+	data, ok, derr := v1.FromBytecode(bc)
+	if derr != nil {
+		c.Infra("v1 down-converter failed on %s: %v", key, derr)
+		return
+	}
+	if !ok {
+		c.Count("skipped_positions_beyond_16_bits", 1)
+		return
+	}
+	if !big {
+		c.Count("growth_programs_below_64KiB", 1)
+		return
+	}
+	c.Nontrivial()
+	c.Count("growth_programs_crossing_64KiB", 1)
+	c.Sample(key)
+	dec, err := func() (d *ugo.Bytecode, err error) {
+		defer func() {
+			if r := recover(); r != nil {
+				err = fmt.Errorf("decoder panics: %v", r)
+			}
+		}()
+		return encoder.DecodeBytecodeFrom(bytes.NewReader(data), nil)
+	}()
+	if err != nil {
+		c.Violation(key, "decoding the version-1 encoding fails: "+err.Error(), nil)
+		return
+	}
+	for _, in := range inputs {
+		want := run.Bytecode(bc, run.Options{Args: in})
+		got := run.Bytecode(dec, run.Options{Args: in})
+		c.AddEval(1)
+		if want.Key() != got.Key() || fmt.Sprint(want.Trace) != fmt.Sprint(got.Trace) {
+			c.Violation(key, fmt.Sprintf("version-1 bytecode behaves differently: original %s trace=%v, decoded from v1 %s trace=%v (input %v)", trunc(want.String()), want.Trace, trunc(got.String()), got.Trace, in), nil)
+			return
+		}
+	}
+}
+
+func trunc(s string) string {
+	if len(s) > 300 {
+		return s[:300] + "..."
+	}
+	return s
+}
+
 func run11(c *fw.Ctx) {
 	// a mis-relocated jump typically makes the decoded program loop; the original terminates in
 	// microseconds, so 2 s (re-checked once before reporting) is a safe "does not terminate" verdict
@@ -203,8 +268,36 @@ func run11(c *fw.Ctx) {
 			one(c, src, noIn)
 		}
 	})
+	// functions that fit the 16-bit positions of version 1 but grow beyond 64 KiB when their operands are widened:
+	// relocated targets above 65535
+	c.Family("growth", "main / a nested function of N if statements (N = 2000..4200 step 100) followed by try/catch/finally, a loop, && and || and a failing statement: every N whose version-1 form fits 16-bit positions, x inputs {0,1,2,\"x\"}")
+	for n := 2000; n <= 4200; n += 100 {
+		for _, nested := range []bool{false, true} {
+			if !c.Next() {
+				continue
+			}
+			var sb strings.Builder
+			body := func() {
+				sb.WriteString("var r; r = 0\n")
+				for i := 0; i < n; i++ {
+					sb.WriteString("if x == 1 { r += 1 }\n")
+				}
+				sb.WriteString("try { if r > 0 { throw \"t\" }; L(5) } catch e { L(1) } finally { L(2) }\nfor i := 0; i < 3; i++ { if i == 1 { continue }; r += i }\n")
+				sb.WriteString("q := [r, x == 2 && L(3, 3), x == 2 || L(4, 4), x == 0 ? L(6, 6) : L(7, 7)]\nL(8, q)\nz := [1][r]\nreturn q\n")
+			}
+			if nested {
+				sb.WriteString("param (x); global (L)\nf := func(x) {\n")
+				body()
+				sb.WriteString("}\nreturn [f(x), L(99)]\n")
+			} else {
+				sb.WriteString("param (x); global (L)\n")
+				body()
+			}
+			large(c, fmt.Sprintf("growth N=%d nested=%v", n, nested), sb.String(), ins4)
+		}
+	}
 	c.Family("jump-grammar", "if/else chains, loops, logical operators, ?:, try - nesting <= 1 (thorough 2), sequences <= 2, x inputs {0,1,2,\"x\"}")
-	ins := [][]ugo.Object{{ugo.Int(0)}, {ugo.Int(1)}, {ugo.Int(2)}, {ugo.String("x")}}
+	ins := ins4
 	JumpPrograms(c.Thorough(), func(src string) {
 		if c.Next() {
 			one(c, src, ins)
